@@ -1,4 +1,4 @@
-import CookModel.Side.Aisle
+import CookModel.Side.AisleSpec
 /-
   Lemmas about the text primitives of the aisle model: byte lengths, split/join,
   sub-slices, comment stripping, trimming, lines.
@@ -184,12 +184,6 @@ theorem slicesFrom_chars (off : Nat) (ps : List (List Char)) : (slicesFrom off p
   | cons p qs ih => simp [slicesFrom, ih]
 
 /-! ### comments -/
-
-/-- the text contains `//` -/
-def hasComment : List Char → Bool
-  | [] => false
-  | [_] => false
-  | c :: c2 :: cs => (c == '/' && c2 == '/') || hasComment (c2 :: cs)
 
 theorem stripComment_cons (c : Char) (cs : List Char) :
     stripCommentChars (c :: cs) = [] ∨ ∃ t, stripCommentChars (c :: cs) = c :: t := by
